@@ -522,6 +522,33 @@ theorem C03_method_general (env : Env) (hp : RulesProgress env.cfg = true) (F D 
       w7.delivered = w.delivered + 1 ∧ w7.anon = w.anon ∧ w7.muted = false ∧ w7.nextId = w.nextId :=
   toplevel_method_gen env hp F D w toks first trest segs cst vol ops x op plist semi quals m' d1 b1 b0 bmid bx bo bc bq b' blk rest hstack hk hmu hfa hspec htoks hfirst htok hy0 hops hopsv hy ha htx hx hxv hto hop hparams hyq hsemi hs hsv hFq hF
 
+/-- **array data members `S prefix x [ size ] ;` through `parse()`'s loop**: exactly ONE `on_class_field` with the access level
+    in force, the array type and exactly the written size tokens -/
+theorem C03_array_field (env : Env) (hp : RulesProgress env.cfg = true) (F D : Nat) (w : World)
+    (toks : List Tok) (first : Tok) (trest : List Tok) (segs : List PQSeg) (cst vol : Bool)
+    (pre : List (String × String)) (ops : List Tok) (x ob : Tok) (content : List Tok) (cb semi : Tok) (d1 : DType) (b1 b0 bmid bx bo bc b' : Buf)
+    (blk : Block) (rest : List Block) (hstack : w.stack = blk :: rest) (hk : blk.hdr.kind = .cls) (acc : String) (hacc : blk.access = some acc)
+    (hmu : w.muted = false) (hfa : ¬ env.faultAt = some w.delivered)
+    (hspec : TypeSpecR env (F + 1) D toks segs cst vol) (htoks : toks = first :: trest) (hfirst : specFirst first.type = true)
+    (htok : tokenEofOk env.cfg w.buf = .ok (some first, b1))
+    (hy0 : Yields env.cfg b1 trest b0)
+    (hhead : ∀ p ∈ pre.head?, declStart p.1 = true ∧ p.2 ≠ "auto")
+    (hy : Yields env.cfg b0 ops bmid)
+    (hpre : PrefixSpec env (F + 1) (D + 1) (.type (.mk segs none false) cst vol) pre d1) (hfn : isFnType d1 = false) (hnr : isRefLike d1 = false) (hops : tvs ops = pre)
+    (htx : tokenEofOk env.cfg bmid = .ok (some x, bx)) (hx : x.type = "NAME") (hxv : identVal x.value = true)
+    (hto : tokenEofOk env.cfg bx = .ok (some ob, bo)) (hob : ob.type = "[")
+    (hn : Nested (content.map (·.type))) (hcb : cb.type = "]") (hyc : Yields env.cfg bo (content ++ [cb]) bc)
+    (hsemi : tokenEofOk env.cfg bc = .ok (some semi, b')) (hs : semi.type = ";")
+    (hF : content.length + 1 ≤ F) :
+    ∃ (d : Option String) (bD : Buf) (w7 : World) (ct : CTok) (dox : Option String) (ev : Event),
+      getDoxygen env.cfg env.mcRe w.buf = .ok (d, bD) ∧
+      interp env (mainBody (F + 1) (core (F + 1) (D + 1 + 1)) none) w = (w7, .ok (.inl none)) ∧
+      SigEq b' w7.buf ∧ ct.value = first.value ∧ w7.stack = { blk with loc := .tok ct.sidx } :: rest ∧
+      w7.events = w.events ++ [ev] ∧ ev.kind = .item (.classField (plainField x (DType.array d1 (if content.isEmpty then none else some (valueOf content))) acc dox)) ∧
+      ev.stateId = blk.id ∧ ev.parentId = rest.head?.map (·.id) ∧ (∀ dd, d = some dd → dox = some dd) ∧
+      w7.delivered = w.delivered + 1 ∧ w7.anon = w.anon ∧ w7.muted = false ∧ w7.nextId = w.nextId :=
+  toplevel_field_array_pre env hp F D w toks first trest segs cst vol pre ops x ob content cb semi d1 b1 b0 bmid bx bo bc b' blk rest hstack hk acc hacc hmu hfa hspec htoks hfirst htok hy0 hhead hy hpre hfn hnr hops htx hx hxv hto hob hn hcb hyc hsemi hs hF
+
 /-- such a member is a piece of whole class bodies: `Member.fieldGen` composes with every other member kind in
     `Item.cls`, so `parse_source` covers classes whose data members have cv-qualified / fundamental types -/
 example (env : Env) (hp : RulesProgress env.cfg = true) (hnf : env.faultAt = none) (F D : Nat) (v : SpecDeclToks) :
